@@ -17,12 +17,14 @@ CONSTANTS
   MaxTok,   \* tokens per string
   TokSet,   \* token menu
   VSet,     \* indices into VMenu (values of v)
-  NSet      \* indices into NMenu (values of n, used only by $((1+n)))
+  NSet,     \* indices into NMenu (values of n, used only by $((1+n)))
+  ISet      \* indices into IMenu (IFS, given through the environment function like any variable)
 
-VARIABLES toks, phase, vI, nI
-vars == <<toks, phase, vI, nI>>
+VARIABLES toks, phase, vI, nI, iI
+vars == <<toks, phase, vI, nI, iI>>
 
-VMenu == << <<>>, <<"a"," ","b">>, <<"*">>, <<"x">>, <<" ","a"," "," ">> >>   \* <<>> = unset
+VMenu == << <<>>, <<"a"," ","b">>, <<"*">>, <<"x">>, <<" ","a"," "," ">>, <<"a",":","b"," ","c">> >>   \* <<>> = unset
+IMenu == << [set |-> FALSE, val |-> <<>>], [set |-> TRUE, val |-> <<":">>] >>
 NMenu == << <<>>, <<"3">> >>
 HomeVal == <<"/","h">>
 
@@ -120,7 +122,6 @@ Braces(w) ==
        \o [k \in 1..Len(tails) |-> pre \o <<[t |-> "B", q |-> "n"]>> \o tails[k]]
   ELSE <<w>>
 
-DefaultIfs == [set |-> FALSE, val |-> <<>>]
 \* 4. expansion with quote marking.  Tilde: an unquoted ~ at the start of a word, alone or before /
 TildeOk(w, i) == i = 1 /\ w[1].t = "TI" /\ w[1].q = "n"
                  /\ (Len(w) = 1 \/ (w[2].t = "SL" /\ w[2].q = "n"))
@@ -147,7 +148,7 @@ ArgTok(w, i, e, dqe) ==
 RECURSIVE WordItems(_, _, _, _)
 WordItems(w, i, e, dqe) == IF i > Len(w) THEN <<>> ELSE ArgTok(w, i, e, dqe) \o WordItems(w, i+1, e, dqe)
 WordFields(w, e, dqe) ==
-  LET fs == SplitItems(WordItems(w, 1, e, dqe), DefaultIfs) IN
+  LET fs == SplitItems(WordItems(w, 1, e, dqe), e.ifs) IN
   IF dqe /\ fs = <<>> /\ (\E i \in 1..Len(w) : EmptyDqAt(w, i)) THEN << <<>> >> ELSE fs
 
 RECURSIVE FieldsOfWords(_, _, _)
@@ -164,19 +165,20 @@ Arg(ts, e) == ArgD(ts, e, FALSE)
 (* The input builder: tokens, then the environment (only the variables that are used) *)
 UsesV(ts) == HasTok(ts, {"V","VD","VU","VL"})
 UsesN(ts) == HasTok(ts, {"AR"})
-Init == toks = <<>> /\ phase = "s" /\ vI = 1 /\ nI = 1
+Init == toks = <<>> /\ phase = "s" /\ vI = 1 /\ nI = 1 /\ iI = 1
 AddTok == /\ phase = "s" /\ Len(toks) < MaxTok
           /\ \E t \in TokSet : toks' = Append(toks, t)
-          /\ UNCHANGED <<phase, vI, nI>>
+          /\ UNCHANGED <<phase, vI, nI, iI>>
 ChooseEnv == /\ phase = "s" /\ Len(toks) >= 1
              /\ \E i \in (IF UsesV(toks) THEN VSet ELSE {1}) : vI' = i
              /\ \E i \in (IF UsesN(toks) THEN NSet ELSE {1}) : nI' = i
+             /\ \E i \in (IF UsesV(toks) THEN ISet ELSE {1}) : iI' = i
              /\ phase' = "done" /\ UNCHANGED toks
 Next == AddTok \/ ChooseEnv
 Spec == Init /\ [][Next]_vars
 
 IsVec == phase = "done"
-Env == [v |-> VMenu[vI], n |-> NMenu[nI]]
+Env == [v |-> VMenu[vI], n |-> NMenu[nI], ifs |-> IMenu[iI]]
 
 -----------------------------------------------------------------------------
 (* Laws *)
@@ -194,8 +196,8 @@ L_SingleQuoted == (IsVec /\ ~HasTok(toks, {"SQ"})) =>
      Arg(<<"SQ">> \o toks \o <<"SQ">>, Env) = [err |-> FALSE, fields |-> <<Src(toks)>>]
 \* L4: an error in here-document mode is an error in argument mode unless single quotes hide it
 L_ErrMono == (IsVec /\ Doc(toks, Env).err /\ ~HasTok(toks, {"SQ"})) => Arg(toks, Env).err
-\* L5: no field of an unquoted-only string contains a blank, and brace expansion doubles words
-L_NoBlank == (IsVec /\ ~HasTok(toks, {"DQ","SQ","OB","OA"})) =>
+\* L5: with the default IFS no field of an unquoted-only string contains a blank
+L_NoBlank == (IsVec /\ ~Env.ifs.set /\ ~HasTok(toks, {"DQ","SQ","OB","OA"})) =>
      LET a == Arg(toks, Env) IN \A i \in 1..Len(a.fields) : \A j \in 1..Len(a.fields[i]) : a.fields[i][j] # " "
 Laws == L_DocLiteral /\ L_QuotedArgIsDoc /\ L_SingleQuoted /\ L_ErrMono /\ L_NoBlank
 
@@ -203,7 +205,7 @@ Emit ==
   IF ~IsVec THEN TRUE ELSE
   LET e == Env  d == Doc(toks, e)  a == Arg(toks, e) IN
   PrintT(<<"VEC", ToJson([
-     toks |-> toks, src |-> Src(toks), v |-> e.v, n |-> e.n, home |-> HomeVal,
+     toks |-> toks, src |-> Src(toks), v |-> e.v, n |-> e.n, ifs |-> e.ifs, home |-> HomeVal,
      doc |-> d, arg |-> a, argdqe |-> ArgD(toks, e, TRUE),
      nontrivial |-> (HasTok(toks, {"V","VD","VU","VL","AR","DQ","SQ","BD","BB","BA","BQ","BR","TI"}) /\ ~(d.err /\ a.err)) ])>>)
 EmitInv == Emit
